@@ -532,12 +532,15 @@ fn oracle(d: &Decl, ld: &Loaded, pool: &Pool, out: &mut Out) {
     for (cl, addr, host, path, kind, method, _cert, _key) in &d.fronts {
         let a: SocketAddr = addr.parse().unwrap();
         if proto_of.get(cl.as_str()) == Some(&0) {
+            // looked up by VALUE (address, hostname, path rule, method), not through the spelling of the state's key
             let k = match kind { 1 => "R", 2 => "=", _ => "P" };
-            let mut key = format!("{};{};{}{}", a, host.clone().unwrap_or_default(), k, path.clone().unwrap_or_default());
-            if let Some(m) = method {
-                key = format!("{key};{m}");
-            }
-            let f = s.http_fronts.get(&key).or_else(|| s.https_fronts.get(&key));
+            let want_kind: i32 = match kind { 1 => 1, 2 => 2, _ => 0 };
+            let (h, p) = (host.clone().unwrap_or_default(), path.clone().unwrap_or_default());
+            let key = format!("{a} {h} {k}{p} {}", method.clone().unwrap_or_default());
+            let f = s.http_fronts.values().chain(s.https_fronts.values()).find(|f| {
+                f.address == a && f.hostname == h && f.path.kind == want_kind && f.path.value == p && f.method == *method
+                    && f.cluster_id.as_deref() == Some(cl.as_str())
+            });
             match f {
                 Some(f) if f.cluster_id.as_deref() == Some(cl.as_str()) => {}
                 _ => out.viol("exact-frontends", &format!("declared frontend {key} of cluster {cl} is not in the state")),
